@@ -100,6 +100,19 @@ pub fn c12_check(ck: &mut Checker, sim: &mut Sim, after_boot: bool) {
         }
     }
     for (clause, detail) in findings {
+        if clause == "last_n_not_ancestors_of_tip" {
+            if let Some((c4, fork)) = ck.c04.unnoticed.last().cloned() {
+                // consequence of a fork the client could not notice: old-branch headers are
+                // merged into the remembered window
+                sim.violate(
+                    "C04",
+                    &c4,
+                    format!("fork point #{} went unnoticed and headers of the abandoned branch stay in the remembered last-N window: {}", fork, detail),
+                );
+                sim.taint = Some(format!("C04/{}", c4));
+                continue;
+            }
+        }
         sim.violate("C12", clause, detail);
     }
     ck.prev_td = Some(td);
@@ -316,6 +329,7 @@ pub struct C01State {
 pub struct C04State {
     pub from_genesis_outstanding: HashSet<usize>,
     pub aborted: bool,
+    pub from_genesis_requests: u64,
     /// branch switches the client could not notice (no reorg section / child fast path): (clause, fork point)
     pub unnoticed: Vec<(String, u64)>,
 }
@@ -386,7 +400,20 @@ pub fn c04_on_long_fork_abort(ck: &mut Checker, sim: &mut Sim, ctx: &str) {
         sim.stat("probe.c04.long_fork_abort");
     }
 }
-pub fn c04_on_client_send(_ck: &mut Checker, _sim: &mut Sim, _s: usize, _p: Proto, _d: &Bytes) {}
+pub fn c04_on_client_send(ck: &mut Checker, sim: &mut Sim, _s: usize, p: Proto, d: &Bytes) {
+    if p != Proto::LightClient {
+        return;
+    }
+    if let Ok(m) = packed::LightClientMessageReader::from_compatible_slice(d) {
+        if let packed::LightClientMessageUnionReader::GetLastStateProof(r) = m.to_enum() {
+            let start: u64 = r.start_number().unpack();
+            if start == 0 && ck.snap.tip_number > 0 {
+                ck.c04.from_genesis_requests += 1;
+                sim.stat("probe.c04.from_genesis_recheck_request");
+            }
+        }
+    }
+}
 
 /// Root-cause detector: the stored tip moved to another branch but the part of the index
 /// (and of the filter progress) above the fork point was not rolled back.
@@ -395,6 +422,40 @@ pub fn c04_after(ck: &mut Checker, sim: &mut Sim, session: usize, _p: Proto, _d:
         Some(c) => c,
         None => return,
     };
+    // honest filters of a peer that still follows the abandoned branch advance the progress
+    if tag.kind == Kind::BlockFilters && tag.honest {
+        let mf_now = c.storage.get_min_filtered_block_number();
+        if mf_now > ck.snap.min_filtered {
+            if let Some(&p) = sim.sessions.get(&session) {
+                let view = sim.peers[p].view;
+                let (_, tip) = c.storage.get_last_state();
+                if let Some(path) = crate::refidx::canonical_path(&sim.world, &tip.calc_header_hash()) {
+                    let mut bad = None;
+                    for n in (ck.snap.min_filtered + 1)..=mf_now {
+                        let theirs = sim.world.block_opt(view.branch, n).map(|b| b.hash());
+                        let ours = path.get(n as usize).map(|id| sim.world.blocks[*id].hash());
+                        if theirs.is_some() && ours.is_some() && theirs != ours {
+                            bad = Some(n);
+                            break;
+                        }
+                    }
+                    if let Some(n) = bad {
+                        sim.violate(
+                            "C04",
+                            "filters_of_abandoned_branch_accepted_from_peer_that_has_not_switched",
+                            format!(
+                                "the stored tip is on another branch than s{} (still proven on the old one); its BlockFilters advanced the filtered height {} -> {} over block #{} of the abandoned branch",
+                                session, ck.snap.min_filtered, mf_now, n
+                            ),
+                        );
+                        sim.taint = Some("C04/filters_of_abandoned_branch_accepted_from_peer_that_has_not_switched".into());
+                        return;
+                    }
+                }
+            }
+        }
+        return;
+    }
     let mut peer_switch = false;
     // per-peer variant: the peer's proven header moved to another branch through a proof
     // without reorg section (the start was rebased onto a stored header of the new branch)
@@ -451,9 +512,35 @@ pub fn c04_after(ck: &mut Checker, sim: &mut Sim, session: usize, _p: Proto, _d:
     let mf_now = c.storage.get_min_filtered_block_number();
     let need = ck.snap.max_script_progress > fork || ck.snap.min_filtered > fork;
     let rolled = scripts_now <= fork + 1 && mf_now <= fork;
+    let records = [c.storage.get_earliest_matched_blocks(), c.storage.get_latest_matched_blocks()];
+    let tip_number_now: u64 = tip.raw().number().unpack();
     sim.stat("probe.c04.branch_switch");
     if need {
         sim.stat("probe.c04.branch_switch_over_indexed_blocks");
+    }
+    // a matched-blocks record that survived the switch must not name abandoned blocks
+    {
+        let mut stale = None;
+        for rec in records {
+            if let Some((start, count, blocks)) = rec {
+                for (h, proved) in blocks {
+                    if let Some(id) = sim.world.by_hash.get(&h) {
+                        if !sim.world.is_ancestor_or_self(*id, new_id) {
+                            stale = Some((start, count, sim.world.blocks[*id].number(), proved));
+                        }
+                    }
+                }
+            }
+        }
+        if let Some((start, count, n, proved)) = stale {
+            let detail = format!(
+                "after the switch to the branch forking at #{} the stored matched-blocks record (start {}, {} blocks) still names block #{} of the abandoned branch (proved flag {}): it is either never provable (sync waits forever) or, when flagged proved, downloaded and indexed",
+                fork, start, count, n, proved
+            );
+            sim.violate("C04", "matched_record_spanning_fork_keeps_abandoned_hashes", detail);
+            sim.taint = Some("C04/matched_record_spanning_fork_keeps_abandoned_hashes".to_string());
+            return;
+        }
     }
     let clause = match tag.kind {
         Kind::SendLastStateProof
@@ -471,7 +558,7 @@ pub fn c04_after(ck: &mut Checker, sim: &mut Sim, session: usize, _p: Proto, _d:
         let detail = format!(
             "tip moved from #{} to #{} on another branch (fork point #{}); scripts were filtered up to {} / min_filtered {} and stay at {} / {}: blocks above the fork point of the abandoned branch remain indexed",
             ck.snap.tip_number,
-            Unpack::<u64>::unpack(&tip.raw().number()),
+            tip_number_now,
             fork,
             ck.snap.max_script_progress,
             ck.snap.min_filtered,
